@@ -190,7 +190,7 @@ func runC09(rep *Report, tier string, seed int64) {
 	rep.Rule = "argument tuples for a 12-parameter handler (int, string, []byte, []int, map, struct, *struct incl. nil, float64, bool, []string, [][]int, *int) drawn from boundary values (first 8 per link) and a PRNG; nil and empty slices/maps/pointers included; " +
 		"oracle: handler saw each argument after ONE direct marshal→unmarshal with the same codec into the declared type, caller got the handler's struct after the same round-trip; plus arities 1..9 through Sum. distinct = argument tuples"
 	rng := rand.New(rand.NewSource(seed))
-	n := 40
+	n := 300
 	if tier == "thorough" {
 		n = 2000
 	}
